@@ -261,6 +261,22 @@ def sec_labels():
         raise TranslateError('get_extension_type_ID: `if len(self.extension_numeric_idx) == 0` not found')
     out += '(* sequence.py get_extension_type_ID: numeric id of a name not seen before, from the list of ids in use *)\n'
     out += 'Definition ext_new_id (l : list Z) : Z := match l with [] => %s | x :: r => %s end.\n' % (coq_Z(first), rule)
+    # ---- read(): which libraries / lists are re-created before the sections are loaded
+    resets = set()
+    for st in _read_reset_region():
+        if isinstance(st, ast.Assign) and len(st.targets) == 1 and unparse(st.targets[0]).startswith('self.'):
+            nm = unparse(st.targets[0])[5:]
+            v = st.value
+            if isinstance(v, ast.Call) and unparse(v.func) == 'EventLibrary':
+                resets.add(nm)
+            elif isinstance(v, ast.List) and not v.elts:
+                resets.add(nm)
+    for need in ('trigger_library', 'label_set_library', 'label_inc_library', 'extension_string_idx', 'extension_numeric_idx'):
+        if need not in resets:
+            raise TranslateError('read(): `self.%s` is not re-created before the sections are loaded (the model of '
+                                 'read_ext and the theorems about read() onto a used object assume it is)' % need)
+    out += '(* read_seq.py read(): is extensions_library re-created like the other libraries? *)\n'
+    out += 'Definition read_resets_ext_library : bool := %s.\n' % ('true' if 'extensions_library' in resets else 'false')
     fmts = {}
     for n in ast.walk(w):
         if isinstance(n, ast.Assign) and unparse(n.targets[0]) == 'id_format_str' and isinstance(n.value, ast.Constant):
